@@ -52,6 +52,8 @@ def tr_expr(e):
         for v in reversed(vals[:-1]):
             r = {key: [v, r]}
         return r
+    if isinstance(e, ast.IfExp):
+        return {'ite': [tr_expr(e.test), tr_expr(e.body), tr_expr(e.orelse)]}
     if isinstance(e, ast.UnaryOp) and isinstance(e.op, ast.Not):
         return {'not': tr_expr(e.operand)}
     if isinstance(e, ast.UnaryOp) and isinstance(e.op, ast.USub) and isinstance(e.operand, ast.Constant):
